@@ -18,29 +18,30 @@ import (
 
 var c12Programs = [][]string{
 	{"MOV~AX , 1", "ADD~CX , 0x100", "HLT"},
-	{"MOV~AX , [ BX + 4 ]", "MOV~[ SI ] , CL", "MOV~EAX , [ EBX + ECX * 4 + 8 ]"},
-	{"MOV~BYTE~[ 0x0ff0 ] , 8", "MOV~WORD~[ BX ] , 320", "MOV~DWORD~[ EBX + 4 ] , 0x000a0000"},
+	{"MOV~AX , [ BX + 4 ]", "MOV [ SI ] , CL", "MOV~EAX , [ EBX + ECX * 4 + 8 ]"},
+	{"MOV~BYTE [ 0x0ff0 ] , 8", "MOV~WORD [ BX ] , 320", "MOV~DWORD [ EBX + 4 ] , 0x000a0000"},
 	{"DB~1 , 2 , 3", "DW~0x1234 , 5", "DD~0x12345678"},
-	{`DB~"a;b" , "c#d" , "e,f"`, `DB~"it's" , 0`, `DB~"x y" , 0x0a`},
-	{`DB~"hello, world" , 0x0a , 0`, "RESB~16", "DB~0x55 , 0xAA"},
+	{`DB "a;b" , "c#d" , "e,f"`, `DB "it's" , 0`, `DB "x y" , 0x0a`},
+	{`DB "hello, world" , 0x0a , 0`, "RESB~16", "DB~0x55 , 0xAA"},
 	{"ORG~0x7c00", "start:", "JMP~start", "DB~1"},
 	{"entry:", "MOV~AX , 0", "JE~entry", "JMP~fin", "fin:", "HLT"},
 	{"X~EQU~5", "Y~EQU~X * 2 + 1", "MOV~AL , X", "DB~Y"},
 	{"CYLS~EQU~10", "MOV~CH , CYLS", "CMP~CH , CYLS - 1"},
 	{"[BITS~32]", "MOV~EAX , 1", "PUSH~EAX", "RET"},
-	{`[INSTRSET~"i486p"]`, "[BITS~32]", "MOV~ECX , [ ESP + 4 ]", "RET"},
-	{"MOV~AX , ( 1 + 2 ) * 3", "MOV~BX , 2 * ( 3 + 4 ) - 1", "DW~( 0x10 + 2 ) / 3 , 7 % 4"},
+	{`[INSTRSET "i486p"]`, "[BITS~32]", "MOV~ECX , [ ESP + 4 ]", "RET"},
+	{"MOV~AX , ( 1 + 2 ) * 3", "MOV~BX , 2 * ( 3 + 4 ) - 1", "DW ( 0x10 + 2 ) / 3 , 7 % 4"},
 	{"RESB~0x20 - $", "DB~1", "ALIGNB~16", "DB~2"},
 	{"IN~AL , 0x60", "OUT~0x21 , AL", "IN~AL , DX", "OUT~DX , AX"},
 	{"INT~0x10", "INT~3", "CLI", "STI", "NOP"},
-	{"PUSH~AX", "POP~BX", "PUSH~1", "PUSH~WORD~[ BX ]"},
+	{"PUSH~AX", "POP~BX", "PUSH~1", "PUSH~WORD [ BX ]"},
 	{"SHL~AX , 1", "SHR~BX , 4", "NOT~CX", "SAR~EAX , 16"},
 	{"AND~EAX , 0x7fffffff", "OR~EAX , 1", "XOR~BX , BX", "CMP~AL , 0"},
 	{"JMP~DWORD~2 * 8:0x0000001b", "DB~0x90"},
 	{"MOV~DS , AX", "MOV~AX , ES", "MOV~CR0 , EAX", "MOV~EAX , CR0"},
-	{"msg:", `DB~"boot" , 0`, "MOV~SI , msg", "LGDT~[ msg ]"},
+	{"msg:", `DB "boot" , 0`, "MOV~SI , msg", "LGDT [ msg ]"},
 	{"CALL~sub1", "HLT", "sub1:", "RET"},
 	{"IMUL~CX , 4", "IMUL~ECX , 4608", "SUB~ECX , 128"},
+	{"DB -1 , 2", "MOV [ 0x0ff0 ] , AL", "DW -2 , ( 1 )", `DB "x" , -1`},
 	{"MOV~AL , [ SI ]", "ADD~SI , 1", "CMP~AL , 0", "MOV~AH , 0x0e", "MOV~BX , 15"},
 }
 
@@ -102,13 +103,13 @@ var c12LeadCol0 = []string{"", " ", "\t"}
 // after-statement alternatives (0 = nothing)
 var c12After = []string{"", " ;c", ";c", " #c", " ;\"", " #;", " ;", "\n", "\n;c", "\n\t# c", "\n  \t",
 	// comment texts with unbalanced brackets and quotes (anything a pre-scan of the raw text could trip over)
-	" ; 1) clear", " ; (see below", " # 3.5\" disk", " ; it's", " ;[", " ;]", "\n; :-) ((", " ; DB 1,2 ; MOV AX,[BX"}
+	" ; 1) clear", " ; (see below", " ; dir C:\\osask\\", "\n# ends with a backslash \\", " # 3.5\" disk", " ; it's", " ;[", " ;]", "\n; :-) ((", " ; DB 1,2 ; MOV AX,[BX"}
 var c12Before = []string{"", "\n", ";c\n", "\t# c\n", "  \t\n"}
 
 func c12Scenario(bound int, name string) *core.Scenario {
 	return &core.Scenario{
 		Name: name, Bound: bound,
-		Rule:   fmt.Sprintf("25 base programs covering every statement kind, re-laid-out token-wise: every layout that deviates from the canonical one in at most %d places (each gap: alternative whitespace; after each statement: 18 comment/blank-line variants (incl. comment texts with unbalanced brackets and quotes); before the first statement: 4; line-ending convention LF/CRLF/CR; final newline absent); output and error class must equal the canonical layout's; non-trivial = canonical assembled, emitted >= 1 byte and the layout deviates", bound),
+		Rule:   fmt.Sprintf("26 base programs covering every statement kind, re-laid-out token-wise: every layout that deviates from the canonical one in at most %d places (each gap: alternative whitespace; after each statement: 18 comment/blank-line variants (incl. comment texts with unbalanced brackets and quotes); before the first statement: 4; line-ending convention LF/CRLF/CR; final newline absent); output and error class must equal the canonical layout's; non-trivial = canonical assembled, emitted >= 1 byte and the layout deviates", bound),
 		Bounds: map[string]any{"programs": len(c12Programs), "deviation_bound": bound, "gap_alternatives": map[string]any{"optional": c12Opt, "mandatory": c12Mand, "leading": c12Lead}, "after_statement": c12After, "before_first": c12Before, "line_endings": []string{"LF", "CRLF", "CR"}},
 		Build: func(c *core.Chooser) *core.Case {
 			pi := c.Pick("prog", len(c12Programs))
@@ -270,7 +271,7 @@ func c12CLI(r *core.Run, tier string) {
 				src := csrc
 				if v.comment {
 					// comment text: ASCII, Shift_JIS (ending in a 0x5C trail byte), UTF-8, or unbalanced brackets/quotes, by program index
-					txts := []string{"last comment", "\x93\xfa\x96\x7b\x8c\xea\x83\x5c", "日本語ソ", "1) clear (the rest", "3.5\" floppy, it's", "] [ ) ( \"", "\x83\x5c) ("}
+					txts := []string{"last comment", "\x93\xfa\x96\x7b\x8c\xea\x83\x5c", "日本語ソ", "1) clear (the rest", "3.5\" floppy, it's", "] [ ) ( \"", "\x83\x5c) (", "built from C:\\osask\\ipl\\"}
 					txt := txts[pi%len(txts)]
 					src = strings.TrimSuffix(src, "\n") + " ; " + txt + "\n"
 					if v.leader {
@@ -310,7 +311,7 @@ func c12CLI(r *core.Run, tier string) {
 	}
 	wg.Wait()
 	r.AddSample(map[string]any{"cli_layout": "program 0 with CR line endings, no final newline, a comment on the last line"})
-	r.AddCustom("cli_layouts", "25 programs x {LF, CRLF, CR} x {final newline, none} x {comment on the last line, none} x {leading comment line, none}, each written to a file and assembled by the REAL command (so the front end's decoding and pre-processing are included); output and exit status must equal the canonical layout's",
+	r.AddCustom("cli_layouts", "26 programs x {LF, CRLF, CR} x {final newline, none} x {comment on the last line, none} x {leading comment line, none}, each written to a file and assembled by the REAL command (so the front end's decoding and pre-processing are included); output and exit status must equal the canonical layout's",
 		map[string]any{"programs": len(c12Programs), "variants": len(vs)}, spawns+1, spawns, spawns, nontriv, 1, true, time.Since(t0).Seconds())
 }
 
